@@ -24,6 +24,8 @@ structure St where
   pexMarker : Nat := 0
   valSize : Int := 4
   pnetK : Nat := 0
+  sched : List PCh := []
+  pexSeed : Bool := false
 
 /-- one `sendPacketMsg` whose packet is handed to the receive loop; `false` = nothing pending -/
 def pairStep (p : Pair) : Pair × Bool :=
@@ -67,6 +69,17 @@ def parseSDescs (s : String) : Option (List Desc) :=
     match ← parseNats e with
     | [id, _prio, q] => pure { id := id, sendQueueCapacity := q, recvMessageCapacity := 0 }
     | _ => none
+
+/-- `id:prio:qcap`: what the least-ratio choice reads -/
+def parseSched (s : String) : Option (List PCh) :=
+  (splitComma s).mapM fun e => do
+    match ← parseNats e with
+    | [id, prio, _q] => pure { id := id, prio := prio, recentlySent := 0 }
+    | _ => none
+
+/-- the channels `sendPacketMsg` sees as pending (after its `isSendPending` pass) -/
+def pendingIds (s : Sender) : List Nat :=
+  ((s.chans.map fun c => (isSendPending c).1).filter (·.sending.isSome)).map (·.id)
 
 /-- `id:recvcap` (receiver) -/
 def parseRDescs (s : String) : Option (List Desc) :=
@@ -221,11 +234,35 @@ def gossipModel (nodeValSize : Int) (p : PeerState.PRS) (what : String) : Option
 
 /-- verdicts of the other reactors' modelled message kinds; the second component is the new pex
 request marker -/
-def otherVerdict (kind : String) (toks : List String) (pexMarker : Nat) : Option (String × Nat) := do
+def showDecision : ReactorMsgs.Decision → String
+  | .accept => "ok" | .ignore => "ok" | .stop => "stopped" | .recovered => "recovered-panic"
+
+def parseDecoded (toks : List String) : Option ReactorMsgs.Decoded :=
+  match kv toks "dec" with
+  | some "bad" => some .bad
+  | some "nosum" => some .nosum
+  | some "msg" => some .msg
+  | none => some .msg
+  | _ => none
+
+def parseEvItems (s : String) : Option (List ReactorMsgs.EvItem) :=
+  (splitComma s).mapM fun t =>
+    match t with
+    | "c" => some .convErr | "v" => some .vbErr | "i" => some .addInvalid
+    | "o" => some .addOther | "k" => some .addOk | _ => none
+
+def otherVerdict (kind : String) (toks : List String) (pexMarker : Nat) (pexSeed : Bool) : Option (String × Nat) := do
   let int (k : String) : Option Int := (kv toks k).bind String.toInt?
   let nat (k : String) : Option Nat := (kv toks k).bind String.toNat?
+  let dec ← parseDecoded toks
   match kind with
-  | "mp-txs" => pure ("ok", pexMarker)
+  | "garbage" => pure (showDecision (ReactorMsgs.decodeGate dec .accept), pexMarker)
+  | "ev-list" =>
+    pure (showDecision (ReactorMsgs.decodeGate dec (ReactorMsgs.evidenceDecide (← parseEvItems (← kv toks "items")))), pexMarker)
+  | "mp-txs" =>
+    pure (showDecision (ReactorMsgs.mempoolDecide (List.replicate (← nat "n") .checked)), pexMarker)
+  | "bc-blockresponse" =>
+    pure (showDecision (ReactorMsgs.blockResponseDecide (← parseBool (← kv toks "converts"))), pexMarker)
   | "bc-blockrequest" => pure (verdict (ReactorMsgs.BcMsg.blockRequest (← int "h")).valid, pexMarker)
   | "bc-noblockresponse" => pure (verdict (ReactorMsgs.BcMsg.noBlockResponse (← int "h")).valid, pexMarker)
   | "bc-statusresponse" => pure (verdict (ReactorMsgs.BcMsg.statusResponse (← int "base") (← int "h")).valid, pexMarker)
@@ -237,11 +274,12 @@ def otherVerdict (kind : String) (toks : List String) (pexMarker : Nat) : Option
   | "ss-snapshotsresponse" =>
     pure (verdict (ReactorMsgs.SsMsg.snapshotsResponse (← nat "h") (← nat "hashlen") (← nat "chunks")).valid, pexMarker)
   | "pex-request" =>
-    let (m, ok) := ReactorMsgs.pexReceiveRequest pexMarker
-    pure (verdict ok, m)
+    -- the harness's hostile peer is inbound; the node never asked it for addresses
+    let (d, m) := ReactorMsgs.pexRequestDecide { seedMode := pexSeed, peerOutbound := false, marker := pexMarker, solicited := false }
+    pure (showDecision d, m)
   | "pex-addrs" =>
-    -- the harness node never asked this peer for addresses
-    pure (verdict (ReactorMsgs.pexAddrsAccepted false (← parseBool (← kv toks "wellformed"))), pexMarker)
+    pure (showDecision (ReactorMsgs.pexAddrsDecide { seedMode := pexSeed, peerOutbound := false, marker := pexMarker, solicited := false }
+      (← parseBool (← kv toks "wellformed")) true), pexMarker)
   | _ => none
 
 def step (st : St) (toks : List String) : St × String :=
@@ -249,7 +287,8 @@ def step (st : St) (toks : List String) : St × String :=
   | "sconn" :: rest =>
     match (kv rest "chs").bind parseSDescs, (kv rest "max").bind String.toNat? with
     | some ds, some mx =>
-      ({ st with snd := some (Sender.new mx ds) }, s!"ok maxpkt={maxPacketMsgSize mx}")
+      ({ st with snd := some (Sender.new mx ds), sched := ((kv rest "chs").bind parseSched).getD [] },
+        s!"ok maxpkt={maxPacketMsgSize mx}")
     | _, _ => (st, "bad-op")
   | "send" :: rest =>
     match st.snd, (kv rest "ch").bind String.toNat?, (kv rest "data").bind ofHex with
@@ -265,8 +304,18 @@ def step (st : St) (toks : List String) : St × String :=
       | none => (st, "bad-op")
       | some p =>
         if pk ≠ "none" ∧ ¬ pickIsPending s p then (st, "bad-pick") else
+        -- the real choice must be the model's least-ratio choice
+        let pend := pendingIds s
+        let least := (pickLeast (st.sched.filter fun c => pend.contains c.id)).map (·.id)
+        if pk ≠ "none" ∧ least ≠ some p then (st, s!"pick-not-least model={least}") else
         let (s', o) := sendPacketMsg s p
-        ({ st with snd := some s' },
+        -- bytes written: uvarint length prefix + encoded packet
+        let sched' := match o with
+          | some q =>
+            let sz := packetSize q.chId.toNat q.eof q.data.length
+            creditSent st.sched q.chId.toNat (varintLen sz + sz)
+          | none => st.sched
+        ({ st with snd := some s', sched := sched' },
           (match o with
             | none => "none"
             | some q => s!"pkt ch={q.chId} eof={showBool q.eof} data={hexOrDash q.data}") ++ " qs=" ++ showQs s')
@@ -328,10 +377,10 @@ def step (st : St) (toks : List String) : St × String :=
   | "reactor" :: rest =>
     match kv rest "kind" with
     | some k =>
-      if ["consensus", "mempool", "evidence", "blockchain", "statesync", "pex"].contains k
+      if ["consensus", "mempool", "mempoolv1", "evidence", "blockchain", "statesync", "pex", "pexseed"].contains k
       then
         let vs : Int := (((kv rest "vals").bind String.toInt?).filter (fun x => 0 < x)).getD 4
-        ({ st with reactor := true, consensus := k == "consensus", prs := {}, pexMarker := 0, valSize := vs }, "ok")
+        ({ st with reactor := true, consensus := k == "consensus", prs := {}, pexMarker := 0, valSize := vs, pexSeed := k == "pexseed" }, "ok")
       else (st, "bad-op")
     | none => (st, "bad-op")
   | "rmsg" :: rest =>
@@ -340,7 +389,7 @@ def step (st : St) (toks : List String) : St × String :=
     | some k, some e =>
       if ¬ st.consensus then
         if k.startsWith "opaque" then (st, e) else
-        match otherVerdict k rest st.pexMarker with
+        match otherVerdict k rest st.pexMarker st.pexSeed with
         | some (v, m) => ({ st with pexMarker := m }, v)
         | none => (st, "bad-op")
       else
